@@ -106,6 +106,36 @@ type Rec struct {
 	Sub  map[string]*Rec
 }
 
+// the real checkpoint record family of compose (ids as in Model/SerCheckpoint.v): struct
+// 9000 checkpoint, 9001 dagChannel, 9002 pregelChannel, interface 9000 channel, named
+// basic type 9000 dependencyState.  Their declarations are NOT printed by the harness:
+// the model uses its own (ckpt_env / ckpt_registry), so a change of the record shape or
+// of the registrations in compose shows up as a disagreement.
+const ckptBase = 9000
+
+var ckptTypes = compose.VerifC12CheckpointTypes()
+var ckptStructs = []reflect.Type{ckptTypes["checkpoint"], ckptTypes["dag"], ckptTypes["pregel"]}
+
+func namedInfoOf(n int) (namedInfo, bool) {
+	if n == ckptBase {
+		return namedInfo{"uint8", ckptTypes["depstate"], true}, true
+	}
+	if n >= 0 && n < len(named) {
+		return named[n], true
+	}
+	return namedInfo{}, false
+}
+
+func ifaceOf(n int) (reflect.Type, bool) {
+	if n == ckptBase {
+		return ckptTypes["channel"], true
+	}
+	if n >= 0 && n < len(ifaces) {
+		return ifaces[n], true
+	}
+	return nil, false
+}
+
 var fixedStructs = []struct {
 	rt  reflect.Type
 	reg bool
@@ -165,6 +195,10 @@ func newWorld(structs []SDecl) (w *world, err error) {
 	for i, fs := range fixedStructs {
 		w.byID[fixedBase+i] = fs.rt
 		w.rev[fs.rt] = fixedBase + i
+	}
+	for i, rt := range ckptStructs {
+		w.byID[ckptBase+i] = rt
+		w.rev[rt] = ckptBase + i
 	}
 	for _, d := range structs {
 		if len(d.Fields) == 0 {
@@ -228,8 +262,8 @@ func (w *world) goType(t *Ty) (reflect.Type, error) {
 			return rt, nil
 		}
 	case "named":
-		if t.N >= 0 && t.N < len(named) {
-			return named[t.N].rt, nil
+		if ni, ok := namedInfoOf(t.N); ok {
+			return ni.rt, nil
 		}
 	case "struct":
 		if rt, ok := w.byID[t.N]; ok {
@@ -258,8 +292,8 @@ func (w *world) goType(t *Ty) (reflect.Type, error) {
 		}
 		return reflect.MapOf(kt, et), nil
 	case "iface":
-		if t.N >= 0 && t.N < len(ifaces) {
-			return ifaces[t.N], nil
+		if it, ok := ifaceOf(t.N); ok {
+			return it, nil
 		}
 	case "any":
 		return anyType, nil
@@ -298,6 +332,9 @@ func (w *world) tyOf(rt reflect.Type) (*Ty, bool) {
 				return &Ty{K: "iface", N: i}, true
 			}
 		}
+		if rt == ckptTypes["channel"] {
+			return &Ty{K: "iface", N: ckptBase}, true
+		}
 		return nil, false
 	}
 	if b, ok := kindBase[rt.Kind()]; ok {
@@ -309,6 +346,9 @@ func (w *world) tyOf(rt reflect.Type) (*Ty, bool) {
 				return &Ty{K: "named", N: i}, true
 			}
 		}
+		if rt == ckptTypes["depstate"] {
+			return &Ty{K: "named", N: ckptBase}, true
+		}
 	}
 	return nil, false
 }
@@ -318,7 +358,8 @@ func (t *Ty) coq() string {
 	case "base":
 		return "(TBase " + baseCoq[t.B] + ")"
 	case "named":
-		return fmt.Sprintf("(TNamed %d%%N %s)", t.N, baseCoq[named[t.N].base])
+		ni, _ := namedInfoOf(t.N)
+		return fmt.Sprintf("(TNamed %d%%N %s)", t.N, baseCoq[ni.base])
 	case "struct":
 		return fmt.Sprintf("(TStruct %d%%N)", t.N)
 	case "ptr":
@@ -427,7 +468,8 @@ func (w *world) build(t *Ty, v *V) (rv reflect.Value, err error) {
 		if v.Nil {
 			return rv, nil
 		}
-		s := reflect.MakeSlice(rt, 0, len(v.E))
+		// spare capacity (len < cap), as slices built with append usually have
+		s := reflect.MakeSlice(rt, 0, len(v.E)+(len(v.E)*7+3)%4)
 		for _, x := range v.E {
 			ev, e := w.build(t.E, x)
 			if e != nil {
@@ -609,7 +651,8 @@ func (w *world) coqVal(rv reflect.Value) (string, bool) {
 		return "(VBase " + baseCoq[t.B] + " " + l + ")", true
 	case "named":
 		l, _ := litCoq(rv)
-		return fmt.Sprintf("(VNamed %d%%N %s %s)", t.N, baseCoq[named[t.N].base], l), true
+		ni, _ := namedInfoOf(t.N)
+		return fmt.Sprintf("(VNamed %d%%N %s %s)", t.N, baseCoq[ni.base], l), true
 	case "struct":
 		var items []string
 		all := true
@@ -927,7 +970,7 @@ func coqFixed() string {
 	return "Definition regx0 : registry := " + lib.CoqList(regx) + ".\n" +
 		"Definition env0 : senv := " + lib.CoqList(env) + ".\n" +
 		"Definition mk (rx : registry) (ex : senv) (w : bool) (v : val) (o : obs) : ccase :=\n" +
-		"  Case (regx0 ++ rx)%list (ex ++ env0)%list w v o.\n"
+		"  Case (ckpt_registry ++ regx0 ++ rx)%list (ckpt_env ++ ex ++ env0)%list w v o.\n"
 }
 
 func runCase(c *Case) (res lib.Result) {
@@ -962,7 +1005,22 @@ func runCase(c *Case) (res lib.Result) {
 	// ---- the implementation
 	var o Obs
 	var out any
+	viaCP := !c.TopNil && rv.Type() == reflect.PointerTo(ckptTypes["checkpoint"])
 	p := lib.Recover(func() {
+		if viaCP {
+			// a *checkpoint goes through checkPointer.set / get and a store, as in a run
+			got, n, setErr, getErr := compose.VerifC12CheckpointSetGet(in)
+			o.Bytes = n
+			switch {
+			case setErr != nil:
+				o = Obs{Class: "enc-error", Msg: setErr.Error()}
+			case getErr != nil:
+				o = Obs{Class: "dec-error", Msg: getErr.Error(), Bytes: n}
+			default:
+				out, o.Class = got, "ok"
+			}
+			return
+		}
 		data, err := compose.VerifC12Marshal(in)
 		if err != nil {
 			o = Obs{Class: "enc-error", Msg: err.Error()}
@@ -1043,6 +1101,9 @@ func runCase(c *Case) (res lib.Result) {
 	}
 	res.Nontrivial = st.nodes >= 2
 	res.Tags = []string{"class:" + o.Class, fmt.Sprintf("ptrdepth:%d", st.ptrDepth), fmt.Sprintf("nest:%d", st.maxNest)}
+	if viaCP {
+		res.Tags = append(res.Tags, "via:checkpointer")
+	}
 	if c.TopNil {
 		res.Tags = append(res.Tags, "top:nil")
 	} else {
@@ -1084,12 +1145,23 @@ type gen struct {
 	r         *lib.Rng
 	structs   []SDecl
 	malformed map[string]bool
-	allowBad  bool // this case belongs to the malformed stream
-	budget    int  // remaining value nodes
+	allowBad  bool   // this case belongs to the malformed stream
+	badKind   string // the one kind of malformation this case may contain (so that they do not mask each other)
+	forceBad  bool   // the next literal of a fitting kind is the malformed one
+	budget    int    // remaining value nodes
 	maxDepth  int
 }
 
 func (g *gen) bad(reason string) { g.malformed[reason] = true }
+
+// want: should a malformation of this kind be placed here?  Only in the malformed stream,
+// only the kind chosen for the case, with probability num/den.
+func (g *gen) want(kind string, num, den int) bool {
+	return g.allowBad && g.badKind == kind && g.r.Chance(num, den)
+}
+
+var badKinds = []string{"unregistered-named", "unregistered-named", "complex", "unregistered-container-elem",
+	"unregistered-iface-elem", "unregistered-struct", "unregistered-struct", "invalid-utf8", "invalid-utf8", "non-finite-float"}
 
 var commonBases = []string{"int", "string", "bool", "float64", "int64", "uint8", "int32", "uint64", "float32", "uint", "int8",
 	"int16", "uint16", "uint32", "uintptr"}
@@ -1099,12 +1171,16 @@ func (g *gen) basicType() *Ty {
 	switch {
 	case r.Chance(1, 4):
 		return &Ty{K: "named", N: r.Intn(8)}
-	case g.allowBad && r.Chance(1, 14):
+	case g.want("unregistered-named", 1, 3):
 		g.bad("unregistered-named")
 		return &Ty{K: "named", N: 8 + r.Intn(2)}
-	case g.allowBad && r.Chance(1, 20):
+	case g.want("complex", 1, 3):
 		g.bad("complex")
 		return &Ty{K: "base", B: r.Pick([]string{"complex64", "complex128"})}
+	case g.want("non-finite-float", 1, 2):
+		return &Ty{K: "base", B: r.Pick([]string{"float64", "float32"})}
+	case g.want("invalid-utf8", 1, 3):
+		return &Ty{K: "base", B: "string"}
 	}
 	if r.Chance(2, 3) {
 		return &Ty{K: "base", B: commonBases[r.Intn(4)]}
@@ -1142,14 +1218,14 @@ func (g *gen) elemType(depth int) *Ty {
 		t = g.structType(depth - 1)
 	case x < 17:
 		t = regContainers[r.Intn(len(regContainers))].t
-	case x < 18 && g.allowBad:
+	case x < 18 && g.want("unregistered-container-elem", 1, 1), x < 8 && g.want("unregistered-container-elem", 1, 2):
 		g.bad("unregistered-container-elem")
 		if r.Chance(1, 2) {
 			t = &Ty{K: "slice", E: &Ty{K: "base", B: "string"}}
 		} else {
 			t = &Ty{K: "map", Key: &Ty{K: "base", B: "string"}, E: &Ty{K: "base", B: "int"}}
 		}
-	case x < 19 && g.allowBad:
+	case x < 19 && g.want("unregistered-iface-elem", 1, 1), x < 8 && g.want("unregistered-iface-elem", 1, 2):
 		g.bad("unregistered-iface-elem")
 		t = &Ty{K: "iface", N: 1}
 	default:
@@ -1180,7 +1256,7 @@ func (g *gen) structType(depth int) *Ty {
 	switch {
 	case r.Chance(1, 6):
 		return &Ty{K: "struct", N: fixedBase + []int{0, 1, 1, 3}[r.Intn(4)]}
-	case g.allowBad && r.Chance(1, 12):
+	case g.want("unregistered-struct", 1, 5):
 		g.bad("unregistered-struct")
 		return &Ty{K: "struct", N: fixedBase + 2}
 	case len(g.structs) > 0 && (r.Chance(1, 3) || len(g.structs) >= 5 || depth <= 0):
@@ -1190,7 +1266,7 @@ func (g *gen) structType(depth int) *Ty {
 	}
 	// a new StructOf declaration; its field types are generated first (dependency order)
 	reg := true
-	if g.allowBad && r.Chance(1, 10) {
+	if g.want("unregistered-struct", 1, 4) {
 		reg = false
 		g.bad("unregistered-struct")
 	}
@@ -1268,7 +1344,8 @@ func (g *gen) lit(base string, isKey bool) *Lit {
 		b := r.Chance(1, 2)
 		return &Lit{B: &b}
 	case "string":
-		if g.allowBad && !isKey && r.Chance(1, 5) {
+		if !isKey && (g.forceBad && g.badKind == "invalid-utf8" || g.want("invalid-utf8", 1, 3)) {
+			g.forceBad = false
 			g.bad("invalid-utf8")
 			return &Lit{S: sp(hex.EncodeToString([]byte(r.Pick(badStrPool))))}
 		}
@@ -1327,12 +1404,14 @@ func (g *gen) lit(base string, isKey bool) *Lit {
 		}
 		f, _ := floatOfBits(is32, strconv.FormatUint(bits, 10))
 		if math.IsNaN(f) || math.IsInf(f, 0) {
-			if g.allowBad && !isKey && r.Chance(1, 2) {
+			if !isKey && (g.forceBad && g.badKind == "non-finite-float" || g.want("non-finite-float", 1, 1)) {
+				g.forceBad = false
 				g.bad("non-finite-float")
 			} else {
 				bits = 0x3f800000 // 1.0 as float32, a tiny subnormal as float64: both finite
 			}
-		} else if g.allowBad && !isKey && r.Chance(1, 10) {
+		} else if !isKey && (g.forceBad && g.badKind == "non-finite-float" || g.want("non-finite-float", 1, 2)) {
+			g.forceBad = false
 			g.bad("non-finite-float")
 			if is32 {
 				bits = uint64(math.Float32bits(float32(math.Inf(1 - 2*r.Intn(2)))))
@@ -1401,7 +1480,8 @@ func (g *gen) lit(base string, isKey bool) *Lit {
 
 func baseOfTy(t *Ty) string {
 	if t.K == "named" {
-		return named[t.N].base
+		ni, _ := namedInfoOf(t.N)
+		return ni.base
 	}
 	return t.B
 }
@@ -1409,10 +1489,16 @@ func baseOfTy(t *Ty) string {
 func (g *gen) fieldTypes(t *Ty) []*Ty {
 	if t.N >= fixedBase {
 		w, _ := newWorld(nil)
-		rt := fixedStructs[t.N-fixedBase].rt
+		rt := w.byID[t.N]
 		var out []*Ty
 		for i := 0; i < rt.NumField(); i++ {
-			ft, _ := w.tyOf(rt.Field(i).Type)
+			if rt.Field(i).PkgPath != "" {
+				continue // unexported: not part of the serialised value
+			}
+			ft, ok := w.tyOf(rt.Field(i).Type)
+			if !ok {
+				panic("field type outside the universe: " + rt.Field(i).Type.String())
+			}
 			out = append(out, ft)
 		}
 		return out
@@ -1496,6 +1582,14 @@ func (g *gen) value(t *Ty, depth int) *V {
 		if r.Chance(1, 5) || depth <= -4 {
 			return &V{Nil: true}
 		}
+		if t.K == "iface" && t.N == ckptBase {
+			// compose's channel interface: *dagChannel or *pregelChannel
+			dt := &Ty{K: "ptr", E: &Ty{K: "struct", N: ckptBase + 1 + r.Intn(2)}}
+			if r.Chance(1, 12) {
+				return &V{DT: dt, DV: &V{Nil: true}}
+			}
+			return &V{DT: dt, DV: &V{P: g.value(dt.E, depth-1)}}
+		}
 		d := depth - 1
 		if d > 2 {
 			d = 2
@@ -1508,25 +1602,169 @@ func (g *gen) value(t *Ty, depth int) *V {
 	}
 }
 
+// badLeaf: a type that carries the case's malformation at (or directly below) its root
+func (g *gen) badLeaf() *Ty {
+	r := g.r
+	str := &Ty{K: "base", B: "string"}
+	switch g.badKind {
+	case "unregistered-named":
+		g.bad("unregistered-named")
+		return &Ty{K: "named", N: 8 + r.Intn(2)}
+	case "complex":
+		g.bad("complex")
+		return &Ty{K: "base", B: r.Pick([]string{"complex64", "complex128"})}
+	case "unregistered-struct":
+		g.bad("unregistered-struct")
+		if r.Chance(1, 2) {
+			return &Ty{K: "struct", N: fixedBase + 2}
+		}
+		nf := 1 + r.Intn(3)
+		fields := make([]Field, nf)
+		id := len(g.structs)
+		for j := range fields {
+			fields[j] = Field{Name: fmt.Sprintf("U%d_%d", id, j), T: g.anyType(1, true)}
+		}
+		g.structs = append(g.structs, SDecl{ID: id, Reg: false, Fields: fields})
+		return &Ty{K: "struct", N: id}
+	case "unregistered-container-elem":
+		g.bad("unregistered-container-elem")
+		var inner *Ty
+		if r.Chance(1, 2) {
+			inner = &Ty{K: "slice", E: g.basicType()}
+		} else {
+			inner = &Ty{K: "map", Key: str, E: &Ty{K: "base", B: "int"}}
+		}
+		if isRegContainer(inner) {
+			inner = &Ty{K: "slice", E: str}
+		}
+		for n := ptrCount(r); n > 0; n-- {
+			inner = &Ty{K: "ptr", E: inner}
+		}
+		if r.Chance(1, 2) {
+			return &Ty{K: "slice", E: inner}
+		}
+		return &Ty{K: "map", Key: str, E: inner}
+	case "unregistered-iface-elem":
+		g.bad("unregistered-iface-elem")
+		if r.Chance(1, 2) {
+			return &Ty{K: "slice", E: &Ty{K: "iface", N: 1}}
+		}
+		return &Ty{K: "map", Key: g.keyType(), E: &Ty{K: "iface", N: 1}}
+	case "invalid-utf8":
+		if r.Chance(1, 4) {
+			return &Ty{K: "named", N: 1}
+		}
+		return str
+	default: // non-finite-float
+		return []*Ty{{K: "base", B: "float64"}, {K: "base", B: "float32"}, {K: "named", N: 2}, {K: "named", N: 6}}[r.Intn(4)]
+	}
+}
+
+// wrap puts (t, v) into a randomly chosen valid context
+func (g *gen) wrap(t *Ty, v *V) (*Ty, *V) {
+	r := g.r
+	concrete := t.K != "iface" && t.K != "any"
+	elemOK := t.K != "slice" && t.K != "map" || isRegContainer(t) // may be an element type as it is
+	str := &Ty{K: "base", B: "string"}
+	key := func() *V { return &V{L: g.lit("string", true)} }
+	switch x := r.Intn(8); {
+	case x == 0 && concrete:
+		return &Ty{K: "ptr", E: t}, &V{P: v}
+	case x == 1 && elemOK:
+		vs := []*V{v}
+		if r.Chance(1, 2) {
+			vs = append([]*V{g.value(t, 1)}, vs...)
+		}
+		return &Ty{K: "slice", E: t}, &V{E: vs}
+	case x == 2 && elemOK:
+		return &Ty{K: "map", Key: str, E: t}, &V{KV: [][2]*V{{key(), v}}}
+	case x == 3 && concrete:
+		return &Ty{K: "slice", E: &Ty{K: "any"}}, &V{E: []*V{{Nil: true}, {DT: t, DV: v}}}
+	case x == 4 && concrete:
+		return &Ty{K: "map", Key: str, E: &Ty{K: "any"}}, &V{KV: [][2]*V{{key(), {DT: t, DV: v}}}}
+	default:
+		// a field of a new registered struct, as it is or boxed in an [any] field
+		ft, fv := t, v
+		if concrete && r.Chance(1, 3) {
+			ft, fv = &Ty{K: "any"}, &V{DT: t, DV: v}
+		}
+		nf := 1 + r.Intn(3)
+		at := r.Intn(nf)
+		id := len(g.structs)
+		fields := make([]Field, nf)
+		vals := make([]*V, nf)
+		// the other fields' types first: they may declare structs of their own
+		for j := range fields {
+			if j != at {
+				fields[j].T = g.anyType(1, true)
+			}
+		}
+		id = len(g.structs)
+		for j := range fields {
+			fields[j].Name = fmt.Sprintf("R%d_%d", id, j)
+			if j == at {
+				fields[j].T, vals[j] = ft, fv
+			} else {
+				vals[j] = g.value(fields[j].T, 1)
+			}
+		}
+		g.structs = append(g.structs, SDecl{ID: id, Reg: true, Fields: fields})
+		return &Ty{K: "struct", N: id}, &V{F: vals}
+	}
+}
+
+// directed malformed case: one malformation, placed in 0..3 nested valid contexts
+func (g *gen) badCase() (*Ty, *V) {
+	t := g.badLeaf()
+	g.forceBad = true
+	v := g.value(t, 2)
+	g.forceBad = false
+	for n := g.r.Intn(4); n > 0; n-- {
+		t, v = g.wrap(t, v)
+	}
+	if t.K == "iface" || t.K == "any" {
+		t, v = g.wrap(t, v)
+	}
+	return t, v
+}
+
 func genCase(r *lib.Rng, tier string, i int) *Case {
 	g := &gen{r: r, malformed: map[string]bool{}, maxDepth: 4, budget: 40}
 	if tier == "thorough" {
 		g.maxDepth, g.budget = 6, 90
 	}
-	g.allowBad = i%7 == 3 // the malformed stream
+	g.allowBad = i%5 == 3 // the malformed stream
+	if g.allowBad {
+		g.badKind = r.Pick(badKinds)
+	}
 	if i%97 == 50 {
 		return &Case{TopNil: true, Malformed: []string{"top-level-nil"}}
 	}
 	depth := 1 + r.Intn(g.maxDepth)
 	var t *Ty
+	if g.allowBad && r.Chance(2, 3) {
+		t, v := g.badCase()
+		c := &Case{Structs: g.structs, T: t, V: v}
+		for m := range g.malformed {
+			c.Malformed = append(c.Malformed, m)
+		}
+		sort.Strings(c.Malformed)
+		return c
+	}
 	switch x := r.Intn(10); {
 	case x < 3:
 		t = g.structType(depth)
 		for n := ptrCount(r); n > 0; n-- {
 			t = &Ty{K: "ptr", E: t}
 		}
-	case x == 3: // the shape of a checkpoint: *Rec
+	case x == 3: // a checkpoint: the real *checkpoint of compose, or the look-alike *Rec
 		t = &Ty{K: "ptr", E: &Ty{K: "struct", N: fixedBase + 3}}
+		if r.Chance(2, 3) {
+			t = &Ty{K: "ptr", E: &Ty{K: "struct", N: ckptBase}}
+			if r.Chance(1, 8) {
+				t = &Ty{K: "struct", N: ckptBase + 1 + r.Intn(2)} // a channel record on its own
+			}
+		}
 	default:
 		t = g.anyType(depth, false)
 	}
@@ -1545,7 +1783,7 @@ type engine struct{}
 
 func (engine) ID() string { return "C12" }
 func (engine) CoqHeader() string {
-	return "From Eino Require Import Base.Util Base.Universe Model.Ser Corr.C12.\n" + coqFixed()
+	return "From Eino Require Import Base.Util Base.Universe Model.Ser Model.SerCheckpoint Corr.C12.\n" + coqFixed()
 }
 func (engine) CoqCaseType() string { return "ccase" }
 
